@@ -24,5 +24,13 @@ mapfile -t F3 < <( (funcs C12; funcs C13; funcs C14) | sort -u)
 run machine/filesys filesys_replay_test.go "${F3[@]}"
 mapfile -t F4 < <( (funcs C05; funcs C08) | grep -i "coq\|buffer\|Import\|File" | sort -u)
 run internal/coq coq_replay_test.go "${F4[@]}"
-[ $bad = 0 ] && echo "all replay harnesses are quiet on the unchanged tree"
+# witness packages that misbehave on the unchanged tree must be bound to their known finding
+cd /verif
+while read -r st w rest; do
+  if [ "$st" = "NOT-AS-EXPECTED" ]; then
+    n=$(jq '.known_for // [] | length' witness/$w/expect.json)
+    if [ "$n" = "0" ]; then echo "WITNESS $w misbehaves on the unchanged tree and is not bound to a known finding (known_for): $rest"; bad=1; fi
+  fi
+done < <(bin/gvc witnesses 2>&1)
+[ $bad = 0 ] && echo "all replay harnesses are quiet on the unchanged tree; every misbehaving witness is bound to its known finding"
 exit $bad
